@@ -855,7 +855,7 @@ func C06Worker(file string) {
 }
 
 func C06(c *core.Ctx) {
-	c.Rule = "generated module texts as statement trees: header (yang-version, namespace, prefix, organization, contact, description, reference, revisions with description/reference), extension definitions, containers / lists (one and two keys, unique) / leaves / leaf-lists / choices with cases, each with a random subset of description, reference, status, when, must (error-message, error-app-tag, description), config, mandatory, presence, units, default, min/max-elements, ordered-by, extension statements on the definition and below description/default/units/namespace, substatements in random order; every argument in a random legal quoting (unquoted, single, double with escapes, '+' concatenation of 2–3 pieces) from a pool of hostile texts; random blanks, line breaks, block and line comments between all tokens; every written fact read back through the public accessors; the same text loaded 3 times in-process and in 2 child processes must give identical dumps; the plainly formatted text of the same module must give the same schema as the decorated one. non-trivial = module with ≥1 quoted hostile text and ≥1 comment between tokens; distinct by module text"
+	c.Rule = "generated module texts as statement trees: header (yang-version, namespace, prefix, organization, contact, description, reference, revisions with description/reference), extension definitions, containers / lists (one and two keys, unique) / leaves / leaf-lists / choices with cases, each with a random subset of description, reference, status, when, must (error-message, error-app-tag, description), config, mandatory, presence, units, default, min/max-elements, ordered-by, extension statements on the definition and below description/default/units/namespace, substatements in random order; every argument in a random legal quoting (unquoted, single, double with escapes, '+' concatenation of 2–3 pieces) from a pool of hostile texts; random blanks, line breaks, block and line comments between all tokens; every written fact read back through the public accessors; the same text loaded 3 times in-process and in 2 child processes must give identical dumps; the plainly formatted text of the same module must give the same schema as the decorated one. non-trivial = module with ≥1 quoted hostile text and ≥1 comment between tokens; distinct by module text; directed: grouping and typedef scoped to an rpc and to an action, a refine with an empty body"
 	c.Assumptions = append(c.Assumptions,
 		"double-quoted strings are generated without literal line breaks (RFC 7950 §6.1.3 strips indentation after them; see known finding dq-indentation-kept), line breaks are written as \\n or inside single quotes",
 		"must/when expressions are compared as text, not evaluated")
@@ -1287,6 +1287,41 @@ func c06probes(c *core.Ctx) {
 	probes = append(probes, probe{"extension below the description / reference of a must", hdr + "  extension e { argument v; }\n  leaf a { type string; must \"1\" { description \"d\" { m:e \"x3\"; } reference \"r\" { m:e \"x4\"; } } }\n}", func(m *meta.Module, err error) string {
 		if err != nil {
 			return "legal YANG (an extension may stand below any statement, RFC 7950 §6.3.1) does not load: " + err.Error()
+		}
+		return ""
+	}, ""})
+	probes = append(probes, probe{"grouping and typedef scoped to an rpc and to an action (RFC 7950 7.14.1, 7.15.1)", hdr + `  rpc r { description "rd"; typedef t { type int32; units ms; } grouping g { leaf a { type t; } } input { uses g; } output { leaf o { type t; } } }
+  container c { action act { grouping g2 { leaf b { type string; } } typedef t2 { type string; } input { uses g2; leaf x { type t2; } } } }
+}`, func(m *meta.Module, err error) string {
+		if err != nil {
+			return "legal YANG does not load: " + err.Error()
+		}
+		r := m.Actions()["r"]
+		if r == nil || r.Input() == nil || r.Output() == nil {
+			return "rpc r, its input or its output is lost"
+		}
+		a, _ := meta.Find(r.Input(), "a").(*meta.Leaf)
+		o, _ := meta.Find(r.Output(), "o").(*meta.Leaf)
+		if a == nil || o == nil || a.Units() != "ms" || o.Units() != "ms" || r.Description() != "rd" {
+			return fmt.Sprintf("rpc r: input leaf a %v, output leaf o %v, units ms expected on both, description %q", a, o, r.Description())
+		}
+		cc, _ := meta.Find(m, "c").(*meta.Container)
+		if cc == nil || cc.Actions()["act"] == nil || cc.Actions()["act"].Input() == nil {
+			return "action act or its input is lost"
+		}
+		in := cc.Actions()["act"].Input()
+		if meta.Find(in, "b") == nil || meta.Find(in, "x") == nil {
+			return "the input of action act lacks b (from its own grouping) or x (of its own typedef)"
+		}
+		return ""
+	}, ""})
+	probes = append(probes, probe{"a refine with an empty body", hdr + "  grouping g { leaf a { type string; description \"d\"; } }\n  container x { uses g { refine a { } } }\n}", func(m *meta.Module, err error) string {
+		if err != nil {
+			return "legal YANG (refine a { } is refine a; RFC 7950 6.3) does not load: " + err.Error()
+		}
+		a, _ := meta.Find(m, "x/a").(*meta.Leaf)
+		if a == nil || a.Description() != "d" {
+			return "x/a is lost or changed"
 		}
 		return ""
 	}, ""})
